@@ -14,6 +14,7 @@ import (
 	"fmt"
 	"os"
 	"sort"
+	"sync"
 	"sync/atomic"
 	"time"
 
@@ -39,11 +40,48 @@ type sched struct {
 
 const pushTx = 6
 
+// A second push type: its items h >= plainBase carry the hash VALUE of item h - plainBase of the first type.  Its holder does
+// not support pending requests (like the transaction pool and the key pool).
+const pushPlain = 5
+const plainBase = 10
+
+type plainHolder struct {
+	mu  sync.Mutex
+	has map[common.Hash128]bool
+	cap uint32
+}
+
+func (p *plainHolder) Add(hash common.Hash128, entry interface{}, shardId common.ShardId, highPriority bool) {
+	p.mu.Lock()
+	p.has[hash] = true
+	p.mu.Unlock()
+}
+func (p *plainHolder) Has(hash common.Hash128) bool {
+	p.mu.Lock()
+	defer p.mu.Unlock()
+	return p.has[hash]
+}
+func (p *plainHolder) Get(hash common.Hash128) (interface{}, common.ShardId, bool, bool) {
+	return nil, 0, false, p.Has(hash)
+}
+func (p *plainHolder) MaxParallelPulls() uint32                 { return p.cap }
+func (p *plainHolder) SupportPendingRequests() bool             { return false }
+func (p *plainHolder) PushTracker() pushpull.PendingPushTracker { return nil }
+
+// item of the model -> (push type, hash value)
+func typOf(h int) uint8 {
+	if h >= plainBase {
+		return pushPlain
+	}
+	return pushTx
+}
+
 type rig struct {
 	clk     *vclock.Clock
 	mgr     *protocol.PushPullManager
 	trk     *pushpull.DefaultPushTracker
 	holder  pushpull.Holder
+	plain   *plainHolder
 	goTop   chan struct{}
 	loopEv  chan string // "top" | "peek"
 	regs    int64
@@ -105,7 +143,29 @@ func (g *gateHolder) MaxParallelPulls() uint32 {
 
 func pid(p int) peer.ID        { return peer.ID(fmt.Sprintf("p%d", p)) }
 func unpid(id peer.ID) int     { var p int; fmt.Sscanf(string(id), "p%d", &p); return p }
-func hsh(h int) common.Hash128 { var x common.Hash128; x[0] = byte(h); return x }
+func hsh(h int) common.Hash128 {
+	var x common.Hash128
+	if h >= plainBase {
+		h -= plainBase
+	}
+	x[0] = byte(h)
+	return x
+}
+
+func itemOf(typ uint8, hash common.Hash128) int {
+	if typ == pushPlain {
+		return plainBase + int(hash[0])
+	}
+	return int(hash[0])
+}
+
+// stored: does the holder of the item's push type hold it?
+func (r *rig) stored(h int) bool {
+	if h >= plainBase {
+		return r.plain.Has(hsh(h))
+	}
+	return r.holder.Has(hsh(h))
+}
 
 var current atomic.Value // *rig
 
@@ -152,6 +212,8 @@ func newRig(delayTicks int, hashes int) *rig {
 	gate := &gateHolder{Holder: r.holder, r: r}
 	r.trk.SetHolder(gate) // the tracker asks the holder through the gate too (NewDefaultHolder registered the bare holder)
 	r.mgr.VerifAddEntryHolder(pushTx, gate)
+	r.plain = &plainHolder{has: map[common.Hash128]bool{}, cap: 3}
+	r.mgr.VerifAddEntryHolder(pushPlain, r.plain)
 	r.mgr.Run()
 	r.waitLoop() // loop reaches its first LoopTop
 	return r
@@ -192,7 +254,7 @@ func (r *rig) settle(emitsBefore, regsBefore int64) {
 func (r *rig) observe(ev step, effective string) tr.M {
 	outs := [][2]int{}
 	for _, q := range r.mgr.VerifDrainRequests() {
-		outs = append(outs, [2]int{unpid(q.Peer), int(q.Hash[0])})
+		outs = append(outs, [2]int{unpid(q.Peer), itemOf(q.Type, q.Hash)})
 	}
 	pend, active := r.trk.VerifSnapshot()
 	pl := [][3]int64{}
@@ -208,6 +270,11 @@ func (r *rig) observe(ev step, effective string) tr.M {
 	for h := 1; h <= r.hashes; h++ {
 		if r.holder.Has(hsh(h)) {
 			has = append(has, h)
+		}
+	}
+	for h := 1; h <= r.hashes; h++ {
+		if r.plain.Has(hsh(h)) {
+			has = append(has, plainBase+h)
 		}
 	}
 	pc := "idle"
@@ -237,10 +304,10 @@ func (r *rig) do(s step, delay int64) tr.M {
 			eff = "Skip" // would block on the manager mutex held by the pre-empted first announcer
 			break
 		}
-		if !r.holder.Has(hsh(s.H)) {
+		if !r.stored(s.H) {
 			r.seen[s.H] = true
 		}
-		r.mgr.VerifAddPush(pid(s.P), pushTx, hsh(s.H))
+		r.mgr.VerifAddPush(pid(s.P), typOf(s.H), hsh(s.H))
 	case "AnnounceSplit":
 		if r.lateHash != 0 {
 			eff = "Skip"
@@ -250,12 +317,12 @@ func (r *rig) do(s step, delay int64) tr.M {
 		if !r.seen[s.H] {
 			r.lateKind = 2
 		}
-		if !r.holder.Has(hsh(s.H)) {
+		if !r.stored(s.H) {
 			r.seen[s.H] = true
 		}
 		atomic.StoreInt32(&r.holdReg, 1)
 		go func() {
-			r.mgr.VerifAddPush(pid(s.P), pushTx, hsh(s.H))
+			r.mgr.VerifAddPush(pid(s.P), typOf(s.H), hsh(s.H))
 			r.annDone <- struct{}{}
 		}()
 		select {
@@ -271,13 +338,13 @@ func (r *rig) do(s step, delay int64) tr.M {
 			eff = "Skip"
 			break
 		}
-		if !r.holder.Has(hsh(s.H)) {
+		if !r.stored(s.H) {
 			r.seen[s.H] = true
 		}
 		w := &capWaiter{done: make(chan struct{}, 1)}
 		atomic.StoreInt32(&r.holdCap, 1)
 		go func() {
-			r.mgr.VerifAddPush(pid(s.P), pushTx, hsh(s.H))
+			r.mgr.VerifAddPush(pid(s.P), typOf(s.H), hsh(s.H))
 			w.done <- struct{}{}
 		}()
 		select {
@@ -306,7 +373,11 @@ func (r *rig) do(s step, delay int64) tr.M {
 		<-r.annDone
 		r.lateHash = 0
 	case "Arrive":
-		r.holder.Add(hsh(s.H), "entry", common.MultiShard, false)
+		if s.H >= plainBase {
+			r.plain.Add(hsh(s.H), "entry", common.MultiShard, false)
+		} else {
+			r.holder.Add(hsh(s.H), "entry", common.MultiShard, false)
+		}
 	case "Tick":
 		r.clk.Advance(1)
 	case "LoopPoll", "LoopPollHold":
